@@ -117,7 +117,7 @@ Proof.
 Qed.
 
 (** Whatever the body, the fragmentation, the buffer size and the outcome
-    (parts delivered, 400, EOFError, ValueError ...), the parser has taken at
+    (parts delivered, or HTTPError 400 for a malformed body), the parser has taken at
     most Content-Length bytes from the connection. *)
 Lemma thm_bounded fuel old c body fr ib maxram st m kept s' cl :
   WF c -> nolimit c body -> c_len c = Some cl ->
